@@ -75,7 +75,7 @@ Qed.
 
 (* the side invariant *)
 Definition Side (c : wcfg) (w : wst) : Prop :=
-  (wrelease c = true -> given w = []) /\ (wclosed w = true -> cache w = None /\ msg w = None).
+  (wrelease c = true -> wrecov c = true -> given w = []) /\ (wclosed w = true -> cache w = None /\ msg w = None).
 
 (* steps that change neither given, closed, cache nor msg *)
 Definition same4 (w w1 : wst) : Prop := gc w w1 /\ cache w1 = cache w /\ msg w1 = msg w.
@@ -105,31 +105,49 @@ Proof. apply Side_same4. repeat split. Qed.
 Lemma Side_send_frame c w : Side c w -> Side c (send_frame w).
 Proof. apply Side_same4. destruct (send_frame_fields w) as (A & B & C & D). repeat split; assumption. Qed.
 
-Lemma Side_deliver_msg c w b clean : Side c w -> Side c (deliver_msg c w b clean).
+Lemma Side_deliver_msg c w b clean pan : Side c w -> Side c (fst (deliver_msg c w b clean pan)).
 Proof.
-  intros S. unfold deliver_msg.
+  intros S. unfold deliver_msg. cbn [fst].
   set (w1 := match b with Some (id, n) => if negb (wclosed w) then w_use w id n else w | None => w end).
   assert (S1 : Side c w1).
   { unfold w1. destruct b as [[id n]|]; [|exact S]. destruct (negb (wclosed w)); [now apply Side_use|exact S]. }
-  assert (C1 : wclosed w1 = wclosed w).
-  { unfold w1. destruct b as [[id n]|]; [|reflexivity]. destruct (negb (wclosed w)); reflexivity. }
-  rewrite <- C1. clearbody w1.
-  assert (S2 : Side c (if negb (wclosed w1) && clean then close_clean w1 else w1)).
-  { destruct (negb (wclosed w1) && clean); [now apply Side_close_clean|exact S1]. }
+  clearbody w1.
+  assert (S2 : Side c (if negb (wclosed w) && clean && negb pan then close_clean w1 else w1)).
+  { destruct (negb (wclosed w) && clean && negb pan); [now apply Side_close_clean|exact S1]. }
   destruct b as [[id n]|]; [now apply Side_dispose|exact S2].
 Qed.
 
-Lemma Side_deliver_frame c w b : Side c w -> Side c (deliver_frame c w b).
+Lemma Side_deliver_frame c w b pan : Side c w -> Side c (fst (deliver_frame c w b pan)).
 Proof.
-  intros S. unfold deliver_frame. destruct b as [[id n]|]; [|exact S].
+  intros S. unfold deliver_frame. destruct b as [[id n]|]; [|exact S]. cbn [fst].
   apply Side_dispose. destruct (wclosed w); [exact S|now apply Side_use].
 Qed.
 
-Lemma Side_deliver_ctl c w b reply : Side c w -> Side c (deliver_ctl c w b reply).
+Lemma Side_deliver_ctl c w b reply pan : Side c w -> Side c (fst (deliver_ctl c w b reply pan)).
 Proof.
-  intros S. unfold deliver_ctl.
+  intros S. unfold deliver_ctl. cbn [fst].
   assert (S1 : Side c (if reply then send_frame w else w)) by (destruct reply; [now apply Side_send_frame|exact S]).
   destruct b as [[id n]|]; [now apply Side_dispose|exact S1].
+Qed.
+
+(* the escape of a handler's panic: only possible when the executor does not recover *)
+Lemma esc_msg_norecov c w b clean pan : snd (deliver_msg c w b clean pan) = true -> wrecov c = false.
+Proof. unfold deliver_msg. cbn [snd]. destruct (wrecov c); [|reflexivity]. now rewrite !andb_false_r. Qed.
+Lemma esc_frame_norecov c w b pan : snd (deliver_frame c w b pan) = true -> wrecov c = false.
+Proof. unfold deliver_frame. destruct b as [[id n]|]; cbn [snd]; [|discriminate]. destruct (wrecov c); [|reflexivity]. now rewrite !andb_false_r. Qed.
+Lemma esc_ctl_norecov c w b reply pan : snd (deliver_ctl c w b reply pan) = true -> wrecov c = false.
+Proof. unfold deliver_ctl. cbn [snd]. destruct (wrecov c); [|reflexivity]. now rewrite !andb_false_r. Qed.
+
+Lemma Side_recover c w : Side c w -> Side c (recover w).
+Proof.
+  intros S. unfold recover. destruct (cache w) as [[id n]|] eqn:E; [|exact S].
+  destruct S as [S1 S2]. split; [exact S1|]. cbn [wclosed set_cache w_free set_wa cache msg]. intros C. destruct (S2 C) as [A B]. congruence.
+Qed.
+
+Lemma Side_escape c w fr : wrecov c = false -> Side c w -> Side c (escape w fr).
+Proof.
+  intros R S. unfold escape. apply Side_recover in S. destruct fr as [[id n]|]; [|exact S].
+  destruct S as [S1 S2]. split; [rewrite R; discriminate|exact S2].
 Qed.
 
 (* an open connection after a step that keeps given and closed *)
@@ -158,19 +176,32 @@ Proof.
       destruct (on_data c w f) as [[[w1 [got m]] fr] e]. cbn [fst] in G.
       assert (S1 : Side c w1) by (apply (Side_open c w); assumption).
       destruct (e =? 1)%N; [exact S1|]. destruct (e =? 2)%N; [cbn [fst]; now apply Side_send_frame|].
-      apply IH. apply Side_deliver_frame.
       assert (S2 : Side c (set_pending (consume w1 total) rest)).
       { apply (Side_open c w); [|exact O|exact S].
         destruct G as [G1 G2]. destruct (gc_consume w1 total) as [H1 H2]. split; cbn; congruence. }
-      destruct got; [now apply Side_deliver_msg|exact S2].
+      set (r3 := if got then deliver_msg c (set_pending (consume w1 total) rest) m (f_clean f) (f_mpanic f)
+                 else (set_pending (consume w1 total) rest, false)).
+      assert (S3 : Side c (fst r3)) by (unfold r3; destruct got; [now apply Side_deliver_msg|exact S2]).
+      assert (E3 : snd r3 = true -> wrecov c = false).
+      { unfold r3. destruct got; [apply esc_msg_norecov|discriminate]. }
+      destruct r3 as [w3 esc1]. cbn [fst snd] in S3, E3.
+      destruct esc1; [cbn [fst]; apply Side_escape; [now apply E3|exact S3]|].
+      assert (S4 := Side_deliver_frame c w3 fr (f_fpanic f) S3).
+      destruct (deliver_frame c w3 fr (f_fpanic f)) as [w4 esc2]. cbn [fst] in S4.
+      destruct esc2; [cbn [fst]; now apply Side_recover|].
+      now apply IH.
     + set (r := if (0 <? f_plen f)%N then let '(w', id) := w_malloc w in (w', Some (id, f_plen f)) else (w, None)).
       assert (G : gc w (fst r)).
       { unfold r. destruct (0 <? f_plen f)%N; [|apply gc_refl].
         assert (A := gc_malloc w). destruct (w_malloc w). exact A. }
       destruct r as [w1 pm]. cbn [fst] in G.
-      apply IH. apply Side_deliver_ctl.
-      apply (Side_open c w); [|exact O|exact S].
-      destruct G as [G1 G2]. destruct (gc_consume w1 total) as [H1 H2]. split; cbn; congruence.
+      assert (S2 : Side c (set_pending (consume w1 total) rest)).
+      { apply (Side_open c w); [|exact O|exact S].
+        destruct G as [G1 G2]. destruct (gc_consume w1 total) as [H1 H2]. split; cbn; congruence. }
+      assert (S3 := Side_deliver_ctl c _ pm (f_reply f) (f_mpanic f) S2).
+      destruct (deliver_ctl c (set_pending (consume w1 total) rest) pm (f_reply f) (f_mpanic f)) as [w3 esc]. cbn [fst] in S3.
+      destruct esc; [cbn [fst]; now apply Side_recover|].
+      now apply IH.
 Qed.
 
 Lemma Side_parse c w n : Side c w -> Side c (fst (w_parse c w n)).
@@ -203,13 +234,13 @@ Proof.
   destruct (Side_run c ops _ (Side_w0 c mv frames)) as [_ S2]. destruct (S2 C) as [-> ->]. cbn. tauto.
 Qed.
 
-(* ... and with ReleasePayload that is nothing *)
+(* ... and with ReleasePayload, when no handler panic can escape its executor, that is nothing *)
 Lemma ws_closed_release_all_returned c mv frames ops :
   let w := fst (wrun c (w0 mv frames) ops) in
-  wrelease c = true -> wclosed w = true -> live_at_end (trace (wa w)) = [].
+  wrelease c = true -> wrecov c = true -> wclosed w = true -> live_at_end (trace (wa w)) = [].
 Proof.
-  cbv zeta. intros R C.
+  cbv zeta. intros R RC C.
   destruct (Side_run c ops _ (Side_w0 c mv frames)) as [S1 _].
   destruct (live_at_end _) as [|x l] eqn:E; [reflexivity|].
-  exfalso. assert (H := proj1 (ws_closed_only_given c mv frames ops x C)). rewrite E, (S1 R) in H. apply H. now left.
+  exfalso. assert (H := proj1 (ws_closed_only_given c mv frames ops x C)). rewrite E, (S1 R RC) in H. apply H. now left.
 Qed.
